@@ -20,7 +20,10 @@ def scenarios(ctx: Ctx) -> list:
 
 
 def run(ctx: Ctx) -> None:
-    run_family(ctx, 'C04', scenarios(ctx), {})
+    from props import cachemodel as cm
+    mscs, by_id = cm.scenarios(ctx, ctx.pick(400, 6000), 'c04')
+    traces = run_family(ctx, 'C04', scenarios(ctx) + mscs, {})
+    cm.drift(ctx, traces, by_id)
 
 
 def replay(ctx: Ctx, path: str) -> None:
